@@ -109,4 +109,92 @@ theorem p3_after_link {g : Digraph} {s0 : St} {n : Nat} (C : Ctx g s0 n) {i w pw
         · exact Or.inl ⟨u, hup, hmem' u v hu⟩
       · exact Or.inr (Or.inr ⟨d, by rw [e5, hfr.dom]; exact hd, hr⟩)
 
+/-- after Step 3 and `bucket[pw]` being emptied the invariant holds one level down -/
+theorem linv_after_step3 {g : Digraph} {s0 : St} {i w pw : Nat} {s3 s4 : St}
+    (h : P3 g s0 i w pw s3 [])
+    (e1 : s4.semi = s3.semi) (e2 : s4.vertex = s3.vertex) (e3 : s4.parent = s3.parent)
+    (e4 : s4.pred = s3.pred) (e5 : s4.dom = s3.dom) (e6 : s4.label = s3.label)
+    (e7 : s4.ancestor = s3.ancestor) (e8 : s4.bucket = upd s3.bucket pw []) :
+    LInv g s0 i s4 := by
+  refine ⟨⟨⟨e2.trans h.core.stat.vertex, e3.trans h.core.stat.parent, e4.trans h.core.stat.pred⟩,
+    by rw [e1]; exact h.core.semi_hi, by rw [e5]; exact h.core.dom_none⟩,
+    h.finv.congr e7 e6 (fun x _ => by rw [e1]), by rw [e1]; exact h.semi_lo, ?_, ?_⟩
+  · intro u v hv
+    rw [e8] at hv; simp only [upd] at hv
+    split at hv
+    · simp at hv
+    · next hu => rw [e1]; exact h.bucket_o u v hu hv
+  · intro v hv
+    rcases h.dom v hv with ⟨u, hu, hm⟩ | hm | hd
+    · exact Or.inl ⟨u, by rw [e8]; simp only [upd, if_neg hu]; exact hm⟩
+    · simp at hm
+    · rw [e5]; exact Or.inr hd
+
+/-- one iteration of `for i in range(n, 1, -1)` -/
+theorem iter23_spec {g : Digraph} {s0 : St} {n : Nat} (C : Ctx g s0 n) {i f : Nat} (hi : 1 ≤ i)
+    (hin : i + 1 ≤ n) (hf : ∀ v, s0.semi v < f) {s : St} (y : Option Nat) (h : LInv g s0 (i + 1) s) :
+    ∃ s' y', iter23 f (i + 1) s y = some (s', y') ∧ LInv g s0 i s' := by
+  have T := C.tree
+  obtain ⟨w, hvw, hw⟩ := C.facts.vertex_semi (i + 1) (by omega) hin
+  have hw0 : s0.semi w ≠ 0 := by omega
+  have hwr : w ≠ g.entry := fun e => by have := C.facts.entry_one; rw [← e] at this; omega
+  obtain ⟨pw, hp⟩ := T.par_ex w hw0 hwr
+  obtain ⟨ep, hp0, hplt⟩ := T.par_edge w pw hp
+  have hP0 : P2 g s0 (i + 1) w s (fun _ => False) :=
+    ⟨h.core, h.finv, fun v hv _ => h.semi_lo v hv, by rw [h.semi_lo w (by omega)]; exact Nat.le_refl _,
+     Or.inl (h.semi_lo w (by omega)), fun _ hf => hf.elim⟩
+  have hpreds : ∀ v ∈ s.pred w, s0.semi v ≠ 0 ∧ g.Edge v w := by
+    intro v hv; rw [h.core.stat.pred] at hv; exact (C.facts.pred_complete w v).mp hv
+  obtain ⟨s1, y1, hst, hP, hfr, hy⟩ := step2_spec C hw (by omega) hf (s.pred w) s y _ hP0 hpreds
+  have hpwmem : pw ∈ s.pred w := by
+    rw [h.core.stat.pred]; exact (C.facts.pred_complete w pw).mpr ⟨hp0, ep⟩
+  have hy1 : y1 = some (s1.semi w) := by
+    rcases hy with ⟨h1, _⟩ | h1
+    · rw [h1] at hpwmem; simp at hpwmem
+    · exact h1
+  obtain ⟨sw, hsw, hsw2⟩ := hP.semi_final C hw (by omega) (fun v hv e => by
+    right; rw [h.core.stat.pred]; exact (C.facts.pred_complete w v).mpr ⟨hv, e⟩)
+  have hvsw : s1.vertex (s1.semi w) = some sw := by
+    rw [hP.core.stat.vertex, hsw2]; exact (C.facts.semi_vertex sw hsw.1.1).2.2
+  have hpar1 : s1.parent w = some pw := by rw [hP.core.stat.parent]; exact hp
+  have hP3 : P3 g s0 i w pw
+      { s1 with bucket := upd s1.bucket sw (setAdd (s1.bucket sw) w)
+                ancestor := upd s1.ancestor w (some (some pw)) }
+      (upd s1.bucket sw (setAdd (s1.bucket sw) w) pw) :=
+    p3_after_link C hw hp h hP hfr hsw hsw2 rfl rfl rfl rfl rfl rfl rfl rfl
+  obtain ⟨s3, hst3, hP3', hb3⟩ := step3_spec C hi hw hp hf _ _ hP3
+  refine ⟨{ s3 with bucket := upd s3.bucket pw [] }, y1, ?_,
+    linv_after_step3 hP3' rfl rfl rfl rfl rfl rfl rfl rfl⟩
+  simp only [iter23]
+  rw [h.core.stat.vertex, hvw]
+  simp only [hst, hy1, hvsw, hpar1, hst3]
+
+/-- the main loop reaches level 1 -/
+theorem steps23_spec {g : Digraph} {s0 : St} {n : Nat} (C : Ctx g s0 n) {f : Nat}
+    (hf : ∀ v, s0.semi v < f) : ∀ (i : Nat) (s : St) (y : Option Nat), 1 ≤ i → i ≤ n →
+      LInv g s0 i s → ∃ s', steps23 f i s y = some s' ∧ LInv g s0 1 s'
+  | 0, _, _, h, _, _ => by omega
+  | 1, s, _, _, _, h => ⟨s, rfl, h⟩
+  | i + 2, s, y, _, hin, h => by
+    obtain ⟨s1, y1, hit, h1⟩ := iter23_spec C (i := i + 1) (by omega) hin hf y h
+    obtain ⟨s', hst, h'⟩ := steps23_spec C hf (i + 1) s1 y1 (by omega) (by omega) h1
+    exact ⟨s', by simp only [steps23, hit]; exact hst, h'⟩
+
+/-- the state left by Step 1 satisfies the invariant at level `n` -/
+theorem linv_init {g : Digraph} {s0 : St} {n : Nat} (C : Ctx g s0 n) : LInv g s0 n s0 := by
+  have hle : ∀ v, s0.semi v ≤ n := by
+    intro v
+    by_cases hv : s0.semi v = 0
+    · omega
+    · exact (C.facts.semi_vertex v hv).2.1
+  refine ⟨⟨⟨rfl, rfl, rfl⟩, fun v hv => by have := hle v; omega, fun v _ => C.dom0 v⟩,
+    ⟨?_, fun v hv _ => (C.facts.label_self v hv).2, fun v hv _ => (C.facts.label_self v hv).1,
+      fun v hv => by have := hle v; omega⟩,
+    fun _ _ => rfl, fun u v hv => by rw [C.bucket0 u] at hv; simp at hv,
+    fun v hv => by have := hle v; omega⟩
+  intro v hv
+  apply Classical.byContradiction
+  intro hn
+  exact C.facts.anc_dom v hn hv
+
 end AgVerif.DomLT
